@@ -478,6 +478,37 @@ fn main() {
             }
         }
     }
+    // ---- SEIPD v2 header octets at the message level, every value: version, cipher, mode, chunk size (the library's default
+    //      4 KiB and the largest, 4 MiB): the fields are bound only through HKDF info and the associated data, so the parse
+    //      must be one-to-one
+    {
+        use pgp::composed::{Message, MessageBuilder};
+        use pgp::types::{Password, StringToKey};
+        for (csn, cs) in [(6u8, ChunkSize::C4KiB), (16, ChunkSize::C4MiB), (0, ChunkSize::C64B)] {
+            let payload = cx.rng.bytes(100);
+            let pw = Password::from("pw");
+            let built = guarded(|| { let mut b = MessageBuilder::from_bytes("", payload.clone()).seipd_v2(Rng::new(50 + csn as u64), SymmetricKeyAlgorithm::AES128, AeadAlgorithm::Ocb, cs);
+                b.encrypt_with_password(Rng::new(51), StringToKey::new_iterated(Rng::new(52), pgp::crypto::hash::HashAlgorithm::Sha256, 10), &pw).ok()?; b.to_vec(Rng::new(53)).ok() }).ok().flatten();
+            let Some(msg) = built else { cx.out.case("", &[], &["v2-header".into(), csn.to_string()], "not constructible", Some(false), "v2-header-unavailable"); continue; };
+            // the SEIPD packet is the last packet: find its body offset
+            let mut pos = 0usize; let mut body_at = None;
+            while pos + 2 <= msg.len() { let tag = msg[pos] & 0x3f; let (hl, bl) = match msg[pos + 1] { x @ 0..=191 => (2usize, x as usize), x @ 192..=223 => (3, ((x as usize - 192) << 8) + msg[pos + 2] as usize + 192), 255 => (6, u32::from_be_bytes([msg[pos + 2], msg[pos + 3], msg[pos + 4], msg[pos + 5]]) as usize), _ => break }; if tag == 18 { body_at = Some(pos + hl); break; } pos += hl + bl; }
+            let Some(at) = body_at else { cx.out.case("", &[], &["v2-header".into(), csn.to_string()], "no SEIPD packet with a fixed length", Some(false), "v2-header-unavailable"); continue; };
+            let read = |m: &[u8]| -> String { guarded(|| -> Result<Vec<u8>, String> { let m = Message::from_bytes(m).map_err(|e| e.to_string())?; let mut d = m.decrypt_with_password(&pw).map_err(|e| e.to_string())?; let mut o = Vec::new(); d.read_to_end(&mut o).map_err(|e| e.to_string())?; Ok(o) }).map(|r| match r { Ok(o) => format!("OK {}", hx(&o)), Err(_) => "ERR".into() }).unwrap_or_else(|p| p) };
+            let base = read(&msg);
+            cx.out.case("", &[], &["v2-header".into(), csn.to_string(), "untouched".into()], if base == format!("OK {}", hx(&payload)) { "reads back" } else { "DOES NOT READ BACK" }, Some(base == format!("OK {}", hx(&payload))), &format!("v2-header-cs{csn}-untouched"));
+            for (fname, off) in [("version", 0usize), ("cipher", 1), ("mode", 2), ("chunk-size", 3)] {
+                for v in 0..=255u8 {
+                    if v == msg[at + off] { continue; }
+                    if !thorough && fname != "chunk-size" && v % 5 != 0 && v > 24 { continue; }
+                    let mut m2 = msg.clone(); m2[at + off] = v;
+                    let r = read(&m2);
+                    cx.out.case("", &[], &["v2-header".into(), csn.to_string(), fname.into(), v.to_string(), hx(&m2)], if r.starts_with("OK") { "ENDS CLEANLY" } else if r == "ERR" { "error" } else { &r }, Some(r == "ERR"), &format!("v2-header-cs{csn}-{fname}"));
+                }
+            }
+        }
+    }
+
     // ---- packet 20 (GnuPG / LibrePGP OCB encrypted data), read when the caller opts in.  The library has no producer for it:
     //      containers are built here from the primitive (AeadAlgorithm::encrypt_in_place) and tied to the model's encryptor;
     //      chunk-size octets 0 (64 octets), 2 and 16 (GnuPG's default, 4 MiB); every bit of every header field, and the usual
@@ -498,7 +529,7 @@ fn main() {
             match r { Ok(Ok((o, Ok(())))) => format!("OK {}", hx(&o)), Ok(Ok((o, Err(_)))) => format!("ERR {}", hx(&o)), Ok(Err(_)) => "ERR -".into(), Err(p) => p }
         };
         // (the library reads packet 20 with OCB only; the other mode octets are covered as tamperings)
-        let cfgs: Vec<(u8, u8, u8)> = if thorough { vec![(7, 2, 0), (9, 2, 0), (8, 2, 1), (7, 2, 2), (8, 2, 16), (7, 2, 16), (9, 2, 16)] } else { vec![(7, 2, 0), (9, 2, 0), (7, 2, 16)] };
+        let cfgs: Vec<(u8, u8, u8)> = if thorough { vec![(7, 2, 0), (9, 2, 0), (8, 2, 1), (7, 2, 2), (8, 2, 16), (7, 2, 16), (9, 2, 16)] } else { vec![(7, 2, 0), (9, 2, 0), (7, 2, 16), (7, 2, 6)] };
         for (symo, aeado, cs) in cfgs {
             let sym = sym_of(symo); let aead = match aeado { 1 => AeadAlgorithm::Eax, 2 => AeadAlgorithm::Ocb, _ => AeadAlgorithm::Gcm };
             let key = cx.rng.bytes(key_len(symo)); let iv = cx.rng.bytes(aead.nonce_size());
